@@ -208,7 +208,7 @@ def shapes(tier):
     out = [([(True, 2, 2)], 2), ([(False, 2, 2)], 2),
            ([(True, 2, 0), (True, 2, 2)], 2)]
     if tier != "quick":
-        out += [([(True, 4, 2)], 3), ([(False, 2, 2), (True, 2, 2)], 3),
+        out += [([(True, 4, 2)], 3), ([(False, 2, 2), (True, 2, 2)], 2),
                 ([(True, 2, 2)], 4)]
     return out
 
